@@ -32,7 +32,6 @@ import (
 	"encoding/base32"
 	"encoding/json"
 	"errors"
-	"fmt"
 	"hash"
 	"net"
 	"os"
@@ -41,6 +40,7 @@ import (
 	"sync"
 	"time"
 
+	"gitlab.com/yawning/obfs4.git/common/atomicfile"
 	"gitlab.com/yawning/obfs4.git/common/csrand"
 )
 
@@ -143,7 +143,7 @@ func (s *ssTicketStore) serialize() error {
 	if err != nil {
 		return err
 	}
-	return os.WriteFile(s.filePath, jsonStr, 0o600)
+	return atomicfile.WriteFile(s.filePath, jsonStr, 0o600)
 }
 
 func loadTicketStore(stateDir string) (*ssTicketStore, error) {
@@ -164,7 +164,10 @@ func loadTicketStore(stateDir string) (*ssTicketStore, error) {
 
 	encMap := make(map[string]*ssTicketJSON)
 	if err = json.Unmarshal(f, &encMap); err != nil {
-		return nil, fmt.Errorf("failed to load ticket store '%s': %w", fPath, err)
+		// A damaged ticket store (eg: a partial write) is not worth failing
+		// over, the tickets are forgotten, and the handshake code will just
+		// use UniformDH.  The file is replaced on the next checkpoint.
+		return s, nil
 	}
 	for k, v := range encMap {
 		raw, err := base32.StdEncoding.DecodeString(v.KeyTicket)
